@@ -48,7 +48,7 @@ def commit_history(rng, n, heavy_delete=False, lazy=True):
 class C06(Prop):
     ID = "C06"
     MODULE = "AwProofs.Props.C06"
-    THEOREMS = []
+    THEOREMS = ["AwProofs.C06.bucket_ops_durable", "AwProofs.C06.bucket_ops_durable_delete", "AwProofs.C06.bucket_ops_durable_update_missing", "AwProofs.C06.cur_is_last_of_history", "AwProofs.C06.durable_is_past_state", "AwProofs.C06.durable_is_prefix_minus_pending", "AwProofs.C06.eager_always_durable", "AwProofs.C06.eager_every_op_durable", "AwProofs.C06.insertMany_can_split", "AwProofs.C06.pending_bounded", "AwProofs.C06.pending_bounded_inside_insertMany", "AwProofs.C06.pending_consistent", "AwProofs.C06.single_op_atomic"]
     MODEL_NEEDS_IMPL = True
     WORKERS = 12
     LEVEL_TEXT = "Lean 4 invariants of the commit machine over the sqlite table model: durable state is a past connection state, bucket operations are durable on return, at most 50 event writes pending at operation boundaries"
